@@ -47,6 +47,39 @@ def _single_return(fn) -> T.Optional[ast.AST]:
     return rets[0].value if len(rets) == 1 else None
 
 
+def parse_fallback_eval(ctx) -> T.Optional[T.List[str]]:
+    """parse(v) evaluated with abstract constructors: Version(v) when that succeeds, LegacyVersion(v) when it raises
+    InvalidVersion, and any other error goes on to the caller.  Returns the mismatches, None when not evaluated."""
+    from sa.model import CannotFold, EvalError, Raised
+    prog = ctx.prog
+    pf = prog.function(f"{M}.parse")
+    wrong: T.List[str] = []
+    try:
+        for outcome in ("ok", "InvalidVersion", "ValueError", "TypeError"):
+            def version_ctor(f: T.Any, node: ast.Call, outcome: str = outcome) -> T.Any:
+                arg = f(node.args[0] if node.args else node.keywords[0].value)
+                if outcome == "ok":
+                    return ("Version", arg)
+                raise Raised(outcome, ("ValueError",) if outcome == "InvalidVersion" else ())
+
+            def legacy_ctor(f: T.Any, node: ast.Call) -> T.Any:
+                return ("LegacyVersion", f(node.args[0] if node.args else node.keywords[0].value))
+            env = {pf.params[0]: "<text>", "__strict__": True, "__stubs__": {"Version": version_ctor, "LegacyVersion": legacy_ctor}}
+            try:
+                got, _ys = prog.run_body(pf, env)
+            except Raised as ex:
+                got = f"raises {ex.name}"
+            except EvalError as ex:
+                got = f"raises: {ex}"
+            want = {"ok": ("Version", "<text>"), "InvalidVersion": ("LegacyVersion", "<text>")}.get(outcome, f"raises {outcome}")
+            if got != want:
+                wrong.append(f"Version(v) {'succeeds' if outcome == 'ok' else 'raises ' + outcome}: parse(v) -> {got}, expected {want}")
+    except (CannotFold, TypeError, AttributeError, KeyError, ValueError, IndexError) as ex:
+        ctx.observe(f"{M}.parse not evaluated ({type(ex).__name__}: {str(ex)[:80]})")
+        return None
+    return wrong
+
+
 def run(ctx) -> None:
     prog, cfgs = ctx.prog, ctx.cfgs
     ctx.rule("R1", "six comparison dunders delegate to self._key OP other._key; hash(self._key); subclasses set _key")
@@ -198,6 +231,9 @@ def run(ctx) -> None:
     tr = [t for t in walk_no_nested(pf.node) if isinstance(t, ast.Try)]
     ok = len(tr) == 1 and len(tr[0].handlers) == 1 and unparse(tr[0].handlers[0].type) == "InvalidVersion" \
         and unparse(tr[0].body[0]) == f"return Version({pf.params[0]})" and unparse(tr[0].handlers[0].body[0]) == f"return LegacyVersion({pf.params[0]})"
+    ev = parse_fallback_eval(ctx)
+    if ev is not None:
+        ok = not ev
     ctx.check("R5", ok, "parse: Version(v), falling back to LegacyVersion(v) only on InvalidVersion", f"{M}.parse: fallback rule changed", "", loc=pf.loc())
     pcfg5 = cfgs.get(pf.fq)
     hbody5 = {nid for h_ in shapes.handlers_catching(pcfg5, ["InvalidVersion"]) for st_ in ast.walk(pcfg5.nodes[h_].ast) for nid in pcfg5.stmt_nodes.get(id(st_), [])}
